@@ -84,7 +84,9 @@
 // genesis). All take arbitrary nonce / fee / gas so that invalid variants can
 // be produced.
 //
-// Caveat: the signature chain context is a process-wide global in oasis-core.
+// Caveats: do not combine memory-only storage with PruneKeepN > 0 (the pruner
+// goroutine crashes in Badger's in-memory Sync); Restart before the first
+// commit re-runs InitChain. The signature chain context is a process-wide global in oasis-core.
 // NewGenesis resets it, so one process can use only one Genesis at a time
 // (sequentially several are fine).
 package muxdrv
